@@ -1,8 +1,8 @@
-(** C20, [Table.sorted]: what the model computes (a stable sort of the rows by
-    a CODED key, where a column listed k times in [reverse] is passed k times
-    through [reverse_cell]), when that is the stable sort of the row tuples
-    with per-column reversal ([spec_sorted]), and a refutation for string
-    columns holding a proper prefix of another value. *)
+(** C20, [Table.sorted]: the order facts, what the key columns handed to numpy
+    are (a reversed int column is negated, a reversed str/bool column is
+    replaced by the negated rank of its values), and the theorem: when no
+    column is listed twice in [reverse], [sorted] is THE stable sort of the row
+    tuples with per-column reversal ([spec_sorted]). *)
 From Coq Require Import Permutation Sorting.Sorted.
 From CG3 Require Import Lib.PyZ Lib.Chars Lib.StableSort Lib.Val Model.Csv Model.Table Spec.TableSpec Proofs.TableBase.
 Import ListNotations.
@@ -164,7 +164,7 @@ Proof.
   destruct (spec_key_cmp revs (proj h columns r1) (proj h columns r3)); congruence.
 Qed.
 
-(* ================================================================== B. what the model computes *)
+(* ================================================================== B. the model against the specification *)
 
 (* ------------------------------------------------------------------ generic facts about [isort_by] *)
 
@@ -197,6 +197,80 @@ Qed.
 Lemma combine_map_l {A B} (g : A -> B) (l : list A) : combine (map g l) l = map (fun i => (g i, i)) l.
 Proof. induction l as [|a l IH]; [reflexivity|]. cbn [map combine]. rewrite IH. reflexivity. Qed.
 
+
+(* ------------------------------------------------------------------ reversal reverses the order *)
+
+Lemma reverse_int_cmp : forall x y,
+  cell_cmp (reverse_cell (CI x)) (reverse_cell (CI y)) = cell_cmp (CI y) (CI x).
+Proof.
+  intros x y. cbn [reverse_cell cell_cmp]. rewrite <- !Z.opp_eq_mul_m1. apply Z.compare_opp.
+Qed.
+
+Lemma cell_same_eq a b : cell_same a b = true -> a = b.
+Proof.
+  unfold cell_same. destruct cell_cmp_good as [_ [He _]].
+  destruct (cell_cmp a b) eqn:E; try discriminate. intros _. apply He. exact E.
+Qed.
+
+Lemma distinct_cells_In x l : In x l -> In x (distinct_cells l).
+Proof.
+  induction l as [|a l IH]; intros Hin; [destruct Hin|].
+  cbn [distinct_cells]. destruct (existsb (cell_same a) l) eqn:E.
+  - destruct Hin as [Hx|Hin]; [|apply IH; exact Hin].
+    subst a. apply existsb_exists in E. destruct E as [y [Hy Hs]].
+    apply cell_same_eq in Hs. subst y. apply IH. exact Hy.
+  - destruct Hin as [Hx|Hin]; [left; exact Hx|right; apply IH; exact Hin].
+Qed.
+
+Lemma filter_length_le {A} (P Q : A -> bool) l :
+  (forall v, P v = true -> Q v = true) -> (length (filter P l) <= length (filter Q l))%nat.
+Proof.
+  intros HPQ. induction l as [|a l IH]; [cbn; lia|].
+  cbn [filter]. destruct (P a) eqn:EP.
+  - rewrite (HPQ a EP). cbn [length]. lia.
+  - destruct (Q a); cbn [length]; lia.
+Qed.
+
+Lemma filter_length_lt {A} (P Q : A -> bool) l :
+  (forall v, P v = true -> Q v = true) ->
+  (exists w, In w l /\ Q w = true /\ P w = false) ->
+  (length (filter P l) < length (filter Q l))%nat.
+Proof.
+  intros HPQ. induction l as [|a l IH]; intros [w [Hin [HQ HP]]]; [destruct Hin|].
+  cbn [filter]. destruct Hin as [Hw|Hin].
+  - subst a. rewrite HQ, HP. cbn [length].
+    pose proof (filter_length_le P Q l HPQ). lia.
+  - assert (IH' : (length (filter P l) < length (filter Q l))%nat).
+    { apply IH. exists w. split; [exact Hin|split; assumption]. }
+    destruct (P a) eqn:EP.
+    + rewrite (HPQ a EP). cbn [length]. lia.
+    + destruct (Q a); cbn [length]; lia.
+Qed.
+
+Lemma rank_in_lt col x y :
+  In x col -> cell_cmp x y = Lt -> rank_in col x < rank_in col y.
+Proof.
+  intros Hx Hlt. unfold rank_in. apply inj_lt.
+  pose proof (good_refl _ cell_cmp_good) as Hr. destruct cell_cmp_good as [Ho [He Ht]].
+  apply filter_length_lt.
+  - intros v Hv. unfold cell_ltb in *. destruct (cell_cmp v x) eqn:E; try discriminate.
+    rewrite (Ht v x y E Hlt). reflexivity.
+  - exists x. split; [apply distinct_cells_In; exact Hx|]. unfold cell_ltb.
+    rewrite Hlt, (Hr x). split; reflexivity.
+Qed.
+
+Theorem neg_rank_reverses : forall col x y, In x col -> In y col ->
+  cell_cmp (neg_rank_cell col x) (neg_rank_cell col y) = cell_cmp y x.
+Proof.
+  intros col x y Hx Hy. unfold neg_rank_cell. cbn [cell_cmp]. rewrite Z.compare_opp.
+  destruct cell_cmp_good as [Ho [He Ht]].
+  destruct (cell_cmp y x) eqn:E.
+  - apply He in E. subst y. apply Z.compare_refl.
+  - apply Z.compare_lt_iff. apply rank_in_lt; assumption.
+  - apply Z.compare_gt_iff. apply rank_in_lt; [exact Hx|].
+    rewrite (Ho y x), E. reflexivity.
+Qed.
+
 (* ------------------------------------------------------------------ the key columns *)
 
 Lemma get_cols_inv t : wf t -> forall names vs, get_cols t names = Ok vs ->
@@ -215,9 +289,6 @@ Qed.
 Lemma fold_reverse_step_Er t columns rev e :
   fold_left (reverse_step t columns) rev (Er e) = Er e.
 Proof. induction rev as [|c rev IH]; [reflexivity|]. cbn [fold_left reverse_step bind]. exact IH. Qed.
-
-Definition kcols_of (t : table) (columns p : list str) : list (list cell) :=
-  map (fun c => map (Nat.iter (count_str c p) reverse_cell) (col_of t c)) columns.
 
 Lemma enum_map_notin {B} (g : str -> B) (F : B -> B) c0 k : forall cs s,
   ~ In c0 cs -> (k < s)%nat ->
@@ -252,175 +323,97 @@ Proof.
     replace (s + S i')%nat with (S s + i')%nat by lia. apply IH; [exact Hnd|reflexivity].
 Qed.
 
-Lemma count_str_app1 c p c0 :
-  count_str c (p ++ [c0]) = ((if str_eqb c c0 then 1 else 0) + count_str c p)%nat.
+
+(* the key column of a reversed column *)
+Definition key_col (t : table) (c : str) : list cell :=
+  match dtype_of (col_of t c) with
+  | DInt => map reverse_cell (col_of t c)
+  | _ => map (neg_rank_cell (col_of t c)) (col_of t c)
+  end.
+
+(* the key columns once the names [p] of [reverse] (no duplicates) have been processed *)
+Definition kcols_of (t : table) (columns p : list str) : list (list cell) :=
+  map (fun c => if mem_str c p then key_col t c else col_of t c) columns.
+
+Lemma mem_str_app1 c p c0 : mem_str c (p ++ [c0]) = mem_str c p || str_eqb c c0.
 Proof.
-  induction p as [|x p IH]; cbn [app count_str]; [lia|]. rewrite IH. lia.
+  unfold mem_str. rewrite existsb_app. cbn [existsb]. rewrite orb_false_r. reflexivity.
 Qed.
 
-Lemma count_str_app c p q : count_str c (p ++ q) = (count_str c p + count_str c q)%nat.
-Proof. induction p as [|x p IH]; cbn [app count_str]; [reflexivity|]. rewrite IH. lia. Qed.
-
 Lemma reverse_step_kcols t columns p c0 d :
-  nodup_strs columns = true ->
+  wf t -> nodup_strs columns = true -> ~ In c0 p ->
   reverse_step t columns (Ok (kcols_of t columns p)) c0 = Ok d ->
   d = kcols_of t columns (p ++ [c0]).
 Proof.
-  intros Hnd H. unfold reverse_step in H. cbn [bind] in H.
+  intros Hwf Hnd Hp H. unfold reverse_step in H. cbn [bind] in H.
   destruct (index_of c0 columns) as [i|] eqn:Ei; [|discriminate].
-  destruct (get_col t c0) as [orig|e]; cbn [bind] in H; [|discriminate].
-  assert (Hd : d = map (fun jc => if Nat.eqb (fst jc) i then map reverse_cell (snd jc) else snd jc)
-                       (enumerate (kcols_of t columns p))).
-  { destruct (dtype_of orig); try discriminate; inversion H; reflexivity. }
-  rewrite Hd. unfold enumerate, kcols_of. rewrite map_length.
-  pose proof (enum_map_index (fun c => map (Nat.iter (count_str c p) reverse_cell) (col_of t c))
-                          (map reverse_cell) c0 columns 0%nat i Hnd Ei) as HE.
-  cbn [Nat.add] in HE. rewrite HE.
-  apply map_ext. intros c. rewrite count_str_app1.
-  destruct (str_eqb c c0); cbn [Nat.add].
-  - rewrite map_map. apply map_ext. intros a. reflexivity.
-  - reflexivity.
+  destruct (mem_str c0 (hdr t)) eqn:Eh;
+    [|apply mem_str_false in Eh; rewrite (get_col_absent t c0 Eh) in H; discriminate].
+  apply mem_str_In in Eh. rewrite (get_col_ok t c0 Hwf Eh) in H. cbn [bind] in H.
+  apply mem_str_false in Hp.
+  assert (Hother : forall c, str_eqb c c0 = false ->
+            (if mem_str c p then key_col t c else col_of t c) =
+            (if mem_str c (p ++ [c0]) then key_col t c else col_of t c)).
+  { intros c Ec. rewrite mem_str_app1, Ec, orb_false_r. reflexivity. }
+  assert (Hself : forall c, str_eqb c c0 = true ->
+            key_col t c0 = (if mem_str c (p ++ [c0]) then key_col t c else col_of t c)).
+  { intros c Ec. rewrite mem_str_app1, Ec, orb_true_r. apply str_eqb_eq in Ec. subst c. reflexivity. }
+  destruct (dtype_of (col_of t c0)) eqn:Ed; try discriminate; inversion H as [Hd]; clear H Hd.
+  - (* DInt: negated in place *)
+    unfold enumerate, kcols_of. rewrite map_length.
+    pose proof (enum_map_index (fun c => if mem_str c p then key_col t c else col_of t c)
+                  (map reverse_cell) c0 columns 0%nat i Hnd Ei) as HE.
+    cbn [Nat.add] in HE. rewrite HE. apply map_ext. intros c.
+    destruct (str_eqb c c0) eqn:Ec; [|apply Hother; exact Ec].
+    rewrite <- (Hself c Ec). apply str_eqb_eq in Ec. subst c. rewrite Hp.
+    unfold key_col. rewrite Ed. reflexivity.
+  - (* DStr: replaced by negated ranks *)
+    unfold set_nth, enumerate, kcols_of. rewrite map_length.
+    pose proof (enum_map_index (fun c => if mem_str c p then key_col t c else col_of t c)
+                  (fun _ => map (neg_rank_cell (col_of t c0)) (col_of t c0)) c0 columns 0%nat i Hnd Ei) as HE.
+    cbn [Nat.add] in HE. cbn beta in HE. rewrite HE. apply map_ext. intros c.
+    destruct (str_eqb c c0) eqn:Ec; [|apply Hother; exact Ec].
+    rewrite <- (Hself c Ec). unfold key_col. rewrite Ed. reflexivity.
+  - (* DBool *)
+    unfold set_nth, enumerate, kcols_of. rewrite map_length.
+    pose proof (enum_map_index (fun c => if mem_str c p then key_col t c else col_of t c)
+                  (fun _ => map (neg_rank_cell (col_of t c0)) (col_of t c0)) c0 columns 0%nat i Hnd Ei) as HE.
+    cbn [Nat.add] in HE. cbn beta in HE. rewrite HE. apply map_ext. intros c.
+    destruct (str_eqb c c0) eqn:Ec; [|apply Hother; exact Ec].
+    rewrite <- (Hself c Ec). unfold key_col. rewrite Ed. reflexivity.
 Qed.
 
-Lemma fold_reverse_step_kcols t columns : nodup_strs columns = true -> forall rev p kc,
+Lemma fold_reverse_step_kcols t columns :
+  wf t -> nodup_strs columns = true -> forall rev p kc,
+  NoDup (p ++ rev) ->
   fold_left (reverse_step t columns) rev (Ok (kcols_of t columns p)) = Ok kc ->
   kc = kcols_of t columns (p ++ rev).
 Proof.
-  intros Hnd. induction rev as [|c0 rev IH]; intros p kc H.
+  intros Hwf Hnd. induction rev as [|c0 rev IH]; intros p kc Hnp H.
   - cbn [fold_left] in H. inversion H. rewrite app_nil_r. reflexivity.
   - cbn [fold_left] in H.
     destruct (reverse_step t columns (Ok (kcols_of t columns p)) c0) as [d|e] eqn:E.
-    + apply reverse_step_kcols in E; [|exact Hnd]. subst d. apply IH in H.
-      rewrite <- app_assoc in H. exact H.
+    + apply reverse_step_kcols in E; [|exact Hwf|exact Hnd|].
+      * subst d. apply IH in H; [|rewrite <- app_assoc; exact Hnp].
+        rewrite <- app_assoc in H. exact H.
+      * intros Hin. apply NoDup_remove_2 in Hnp. apply Hnp. apply in_or_app. left. exact Hin.
     + rewrite fold_reverse_step_Er in H. discriminate.
 Qed.
 
 Lemma sort_keys_inv t columns rev kc :
-  wf t -> sort_keys t columns rev = Ok kc ->
+  wf t -> NoDup rev -> sort_keys t columns rev = Ok kc ->
   Forall (fun c => In c (hdr t)) columns /\ nodup_strs columns = true /\
   kc = kcols_of t columns rev.
 Proof.
-  intros Hwf H. unfold sort_keys in H.
+  intros Hwf Hnr H. unfold sort_keys in H.
   destruct (nodup_strs columns) eqn:Hnd; cbn [negb] in H; [|discriminate].
   destruct (get_cols t columns) as [vs|e] eqn:G; [|rewrite fold_reverse_step_Er in H; discriminate].
   destruct (get_cols_inv t Hwf columns vs G) as [Hf Hv].
   split; [exact Hf|split; [reflexivity|]].
   assert (Hv0 : vs = kcols_of t columns []).
-  { rewrite Hv. unfold kcols_of. apply map_ext. intros c. cbn [count_str].
-    symmetry. rewrite <- (map_id (col_of t c)) at 2. apply map_ext. intros a. reflexivity. }
-  rewrite Hv0 in H. apply (fold_reverse_step_kcols t columns Hnd rev [] kc H).
+  { rewrite Hv. unfold kcols_of. apply map_ext. intros c. reflexivity. }
+  rewrite Hv0 in H. apply (fold_reverse_step_kcols t columns Hwf Hnd rev [] kc Hnr H).
 Qed.
-
-Lemma iter_reverse_CN k : Nat.iter k reverse_cell CN = CN.
-Proof. induction k as [|k IH]; [reflexivity|]. change (Nat.iter (S k) reverse_cell CN) with (reverse_cell (Nat.iter k reverse_cell CN)).
-  rewrite IH. reflexivity.
-Qed.
-
-Lemma row_at_kcols t columns rev i :
-  row_at (kcols_of t columns rev) i = code_key (hdr t) columns rev (row_at (cols t) i).
-Proof.
-  unfold row_at at 1. unfold kcols_of, code_key. rewrite map_map. apply map_ext. intros c.
-  rewrite nth_row_at. fold (col_of t c).
-  rewrite <- (iter_reverse_CN (count_str c rev)) at 1.
-  apply (map_nth (Nat.iter (count_str c rev) reverse_cell)).
-Qed.
-
-(* ------------------------------------------------------------------ B1 *)
-
-(* NB the hypothesis [hdr t = [] -> nrows t = 0]: a table without columns has
-   no rows (wf alone allows [mkT [] [] 5], for which [sorted] answers the
-   empty table). *)
-Theorem sorted_model_rows : forall t columns reverse t',
-  wf t -> (hdr t = [] -> nrows t = 0%nat) -> sorted t columns reverse = Ok t' ->
-  let cr := sort_columns t columns reverse in
-  hdr t' = hdr t /\ wf t' /\ nrows t' = nrows t /\
-  rows t' = isort_by (code_row_leb (hdr t) (fst cr) (snd cr)) (rows t).
-Proof.
-  intros t columns reverse t' Hwf Hne H cr. subst cr.
-  unfold sorted in H. destruct (sort_columns t columns reverse) as [cs rev] eqn:Hsc. cbn [fst snd].
-  destruct (sort_keys t cs rev) as [kc|e] eqn:Hk; cbn [bind] in H; [|discriminate].
-  destruct (negb (forallb sortable_dtype kc)); [discriminate|].
-  destruct (sort_keys_inv t cs rev kc Hwf Hk) as [Hin [Hnd Hkc]].
-  set (keys := map (row_at kc) (seq 0 (nrows t))) in H.
-  assert (Hkl : length keys = nrows t).
-  { unfold keys. rewrite map_length, seq_length. reflexivity. }
-  assert (Hlen : length (argsort keys) = nrows t).
-  { unfold argsort. rewrite map_length, isort_by_length, combine_length, seq_length, Nat.min_id.
-    exact Hkl. }
-  pose proof Hwf as [Hl [Hf Hndh]].
-  rewrite (set_cols_empty (hdr t) (map (take (argsort keys)) (cols t)) (nrows t)) in H.
-  - inversion H as [Ht']. cbn [hdr nrows cols].
-    assert (Hn : match hdr t with [] => 0%nat | _ :: _ => nrows t end = nrows t).
-    { destruct (hdr t); [symmetry; apply Hne; reflexivity|reflexivity]. }
-    split; [reflexivity|]. split; [|split].
-    + unfold wf. cbn [hdr nrows cols]. rewrite map_length. split; [exact Hl|split; [|exact Hndh]].
-      rewrite Hn. rewrite Forall_forall. intros v Hv. apply in_map_iff in Hv.
-      destruct Hv as [c [Hc _]]. subst v. rewrite take_length. exact Hlen.
-    + exact Hn.
-    + rewrite rows_mkT, Hn.
-      replace (seq 0 (nrows t)) with (seq 0 (length (argsort keys))) by (rewrite Hlen; reflexivity).
-      rewrite take_rows. unfold argsort. rewrite map_map, Hkl. unfold keys. rewrite combine_map_l.
-      rewrite (isort_by_map_commute (fun p => row_at (cols t) (snd p)) _ (code_row_leb (hdr t) cs rev)).
-      * rewrite map_map. reflexivity.
-      * intros x y Hx Hy. apply in_map_iff in Hx. destruct Hx as [i [Hi _]].
-        apply in_map_iff in Hy. destruct Hy as [j [Hj _]]. subst x y. cbn [fst snd].
-        unfold code_row_leb. rewrite Hkc, !row_at_kcols. reflexivity.
-  - rewrite map_length. exact Hl.
-  - rewrite Forall_forall. intros v Hv. apply in_map_iff in Hv.
-    destruct Hv as [c [Hc _]]. subst v. rewrite take_length. exact Hlen.
-  - exact Hndh.
-Qed.
-
-(* ------------------------------------------------------------------ B2: where reversal reverses the order *)
-
-Lemma reverse_int_cmp : forall x y,
-  cell_cmp (reverse_cell (CI x)) (reverse_cell (CI y)) = cell_cmp (CI y) (CI x).
-Proof.
-  intros x y. cbn [reverse_cell cell_cmp]. rewrite <- !Z.opp_eq_mul_m1. apply Z.compare_opp.
-Qed.
-
-Lemma Z_compare_255 x y : (255 - x ?= 255 - y) = (y ?= x).
-Proof.
-  destruct (Z.compare_spec y x) as [H|H|H];
-    [apply Z.compare_eq_iff|apply Z.compare_lt_iff|apply Z.compare_gt_iff]; lia.
-Qed.
-
-Lemma reverse_chr_latin c : 0 <= c < 256 -> reverse_chr c = 255 - c.
-Proof.
-  intros H. unfold reverse_chr. destruct ((0 <=? c) && (c <? 256)) eqn:E; [reflexivity|lia].
-Qed.
-
-Lemma reverse_str_cmp_aux : forall a b, latin1 a -> latin1 b ->
-  (is_prefix a b = false \/ a = b) -> (is_prefix b a = false \/ a = b) ->
-  str_cmp (map reverse_chr a) (map reverse_chr b) = str_cmp b a.
-Proof.
-  unfold str_cmp, latin1.
-  induction a as [|x a IH]; intros [|y b] Ha Hb H1 H2.
-  - reflexivity.
-  - destruct H1 as [H1|H1]; discriminate.
-  - destruct H2 as [H2|H2]; discriminate.
-  - pose proof (Forall_inv Ha) as Hx. pose proof (Forall_inv_tail Ha) as Ha'.
-    pose proof (Forall_inv Hb) as Hy. pose proof (Forall_inv_tail Hb) as Hb'.
-    cbn beta in Hx, Hy.
-    cbn [map list_cmp]. rewrite (reverse_chr_latin x Hx), (reverse_chr_latin y Hy), Z_compare_255.
-    destruct (y ?= x) eqn:E; try reflexivity.
-    apply Z.compare_eq in E. subst y. apply IH; try assumption.
-    + destruct H1 as [H1|H1]; [left|right].
-      * cbn [is_prefix] in H1. rewrite Z.eqb_refl in H1. exact H1.
-      * inversion H1. reflexivity.
-    + destruct H2 as [H2|H2]; [left|right].
-      * cbn [is_prefix] in H2. rewrite Z.eqb_refl in H2. exact H2.
-      * inversion H2. reflexivity.
-Qed.
-
-Lemma reverse_str_cmp : forall a b, latin1 a -> latin1 b ->
-  (is_prefix a b = false \/ a = b) -> (is_prefix b a = false \/ a = b) ->
-  cell_cmp (reverse_cell (CS a)) (reverse_cell (CS b)) = cell_cmp (CS b) (CS a).
-Proof.
-  intros a b Ha Hb H1 H2. cbn [reverse_cell cell_cmp]. apply reverse_str_cmp_aux; assumption.
-Qed.
-
-(* ------------------------------------------------------------------ B3: the spec-level theorem *)
 
 Lemma count_str_notin c l : ~ In c l -> count_str c l = 0%nat.
 Proof.
@@ -440,18 +433,6 @@ Proof.
     rewrite (IH Hnd' Hin). reflexivity.
 Qed.
 
-Lemma reverse_cmp_in_col col x y :
-  col_reversible col -> In x col -> In y col ->
-  cell_cmp (reverse_cell x) (reverse_cell y) = cell_cmp y x.
-Proof.
-  intros [Hi|[Hs Hp]] Hx Hy.
-  - rewrite Forall_forall in Hi. destruct (Hi x Hx) as [zx Ex]. destruct (Hi y Hy) as [zy Ey].
-    subst x y. apply reverse_int_cmp.
-  - rewrite Forall_forall in Hs. destruct (Hs x Hx) as [sx [Ex Lx]]. destruct (Hs y Hy) as [sy [Ey Ly]].
-    subst x y. destruct (Hp sx sy Hx Hy) as [He|[Hf1 Hf2]].
-    + apply reverse_str_cmp; try assumption; right; exact He.
-    + apply reverse_str_cmp; try assumption; left; assumption.
-Qed.
 
 Lemma key_cmp_spec_key_cmp (F1 F2 G1 G2 : str -> cell) (flag : str -> bool) : forall cs,
   (forall c, In c cs -> cell_cmp (F1 c) (F2 c) = cell_cmp_r (flag c) (G1 c) (G2 c)) ->
@@ -463,15 +444,49 @@ Proof.
   destruct (cell_cmp_r (flag c) (G1 c) (G2 c)); reflexivity.
 Qed.
 
-Lemma code_row_leb_spec t cs rev i j :
+
+Lemma nth_map_in {A B} (f : A -> B) l i d d' :
+  (i < length l)%nat -> nth i (map f l) d' = f (nth i l d).
+Proof.
+  intros Hi. rewrite (nth_indep _ d' (f d)); [|rewrite map_length; exact Hi]. apply map_nth.
+Qed.
+
+Lemma key_col_cmp t c i j :
+  (i < length (col_of t c))%nat -> (j < length (col_of t c))%nat ->
+  cell_cmp (nth i (key_col t c) CN) (nth j (key_col t c) CN) =
+  cell_cmp (nth j (col_of t c) CN) (nth i (col_of t c) CN).
+Proof.
+  intros Hi Hj. unfold key_col.
+  assert (Hnr : cell_cmp (nth i (map (neg_rank_cell (col_of t c)) (col_of t c)) CN)
+                         (nth j (map (neg_rank_cell (col_of t c)) (col_of t c)) CN) =
+                cell_cmp (nth j (col_of t c) CN) (nth i (col_of t c) CN)).
+  { rewrite (nth_map_in _ _ i CN CN Hi), (nth_map_in _ _ j CN CN Hj).
+    apply neg_rank_reverses; apply nth_In; assumption. }
+  destruct (dtype_of (col_of t c)) eqn:Ed; try exact Hnr.
+  unfold dtype_of in Ed. destruct (forallb is_CI (col_of t c)) eqn:Ef.
+  - rewrite forallb_forall in Ef.
+    rewrite (nth_map_in _ _ i CN CN Hi), (nth_map_in _ _ j CN CN Hj).
+    pose proof (Ef _ (nth_In _ CN Hi)) as Fi. pose proof (Ef _ (nth_In _ CN Hj)) as Fj.
+    destruct (nth i (col_of t c) CN) as [zi| | |]; try discriminate.
+    destruct (nth j (col_of t c) CN) as [zj| | |]; try discriminate.
+    apply reverse_int_cmp.
+  - destruct (forallb is_CS (col_of t c)); [discriminate|].
+    destruct (forallb is_CB (col_of t c)); discriminate.
+Qed.
+
+Lemma row_at_map {A} (g : A -> list cell) cs i :
+  row_at (map g cs) i = map (fun c => nth i (g c) CN) cs.
+Proof. unfold row_at. apply map_map. Qed.
+
+(* on rows of the table the order of the coded keys is the specified order *)
+Lemma key_leb_spec t cs rev i j :
   wf t -> Forall (fun c => In c (hdr t)) cs -> NoDup rev ->
-  (forall c, In c rev -> In c cs -> col_reversible (col_of t c)) ->
   (i < nrows t)%nat -> (j < nrows t)%nat ->
-  code_row_leb (hdr t) cs rev (row_at (cols t) i) (row_at (cols t) j) =
+  key_leb (row_at (kcols_of t cs rev) i) (row_at (kcols_of t cs rev) j) =
   spec_row_leb (hdr t) cs (rev_flags cs rev) (row_at (cols t) i) (row_at (cols t) j).
 Proof.
-  intros Hwf Hcs Hnd Hrev Hi Hj.
-  unfold code_row_leb, spec_row_leb, key_leb, code_key, proj, rev_flags.
+  intros Hwf Hcs Hnd Hi Hj.
+  unfold spec_row_leb, key_leb, proj, rev_flags, kcols_of. rewrite !row_at_map.
   rewrite (key_cmp_spec_key_cmp _ _
              (fun c => nth (pos c (hdr t)) (row_at (cols t) i) CN)
              (fun c => nth (pos c (hdr t)) (row_at (cols t) j) CN)
@@ -480,43 +495,62 @@ Proof.
   destruct (mem_str c rev) eqn:E.
   - apply mem_str_In in E. rewrite (count_str_nodup c rev Hnd E).
     change (Nat.odd 1) with true. unfold cell_cmp_r.
-    change (Nat.iter 1 reverse_cell ?x) with (reverse_cell x).
     rewrite Forall_forall in Hcs.
-    assert (Hlen : length (col_of t c) = nrows t) by (apply col_of_length; [exact Hwf|apply Hcs; exact Hc]).
-    apply (reverse_cmp_in_col (col_of t c)).
-    + apply Hrev; assumption.
-    + apply nth_In. lia.
-    + apply nth_In. lia.
+    assert (Hlen : length (col_of t c) = nrows t)
+      by (apply col_of_length; [exact Hwf|apply Hcs; exact Hc]).
+    apply key_col_cmp; lia.
   - apply mem_str_false in E. rewrite (count_str_notin c rev E). reflexivity.
 Qed.
 
-Lemma sorted_ok_columns t columns reverse t' :
-  wf t -> sorted t columns reverse = Ok t' ->
-  Forall (fun c => In c (hdr t)) (fst (sort_columns t columns reverse)).
-Proof.
-  intros Hwf H. unfold sorted in H.
-  destruct (sort_columns t columns reverse) as [cs rev] eqn:Hsc. cbn [fst].
-  destruct (sort_keys t cs rev) as [kc|e] eqn:Hk; cbn [bind] in H; [|discriminate].
-  destruct (sort_keys_inv t cs rev kc Hwf Hk) as [Hin _]. exact Hin.
-Qed.
+(* ------------------------------------------------------------------ the theorem *)
 
-(* hypothesis added w.r.t. the plain statement: [hdr t = [] -> nrows t = 0] (see B1) *)
+(* NB the hypothesis [hdr t = [] -> nrows t = 0]: a table without columns has
+   no rows (wf alone allows [mkT [] [] 5], for which [sorted] answers the
+   empty table, see [sorted_no_columns_loses_rows]). *)
 Theorem sorted_is_stable_sort : forall t columns reverse t',
   wf t -> (hdr t = [] -> nrows t = 0%nat) -> sorted t columns reverse = Ok t' ->
   let cr := sort_columns t columns reverse in
   NoDup (snd cr) ->
-  (forall c, In c (snd cr) -> In c (fst cr) -> col_reversible (col_of t c)) ->
+  hdr t' = hdr t /\ wf t' /\ nrows t' = nrows t /\
   rows t' = spec_sorted (hdr t) (rows t) (fst cr) (rev_flags (fst cr) (snd cr)).
 Proof.
-  intros t columns reverse t' Hwf Hne H cr Hnd Hrev.
-  pose proof (sorted_model_rows t columns reverse t' Hwf Hne H) as HM. cbv zeta in HM.
-  destruct HM as [_ [_ [_ Hrows]]]. fold cr in Hrows.
-  pose proof (sorted_ok_columns t columns reverse t' Hwf H) as Hcs. fold cr in Hcs.
-  rewrite Hrows. unfold spec_sorted. apply isort_by_ext_in. intros r1 r2 Hr1 Hr2.
-  unfold rows, array in Hr1, Hr2.
-  apply in_map_iff in Hr1. destruct Hr1 as [i [Ei Hi]]. apply in_seq in Hi.
-  apply in_map_iff in Hr2. destruct Hr2 as [j [Ej Hj]]. apply in_seq in Hj.
-  subst r1 r2. apply code_row_leb_spec; try assumption; lia.
+  intros t columns reverse t' Hwf Hne H cr. subst cr.
+  unfold sorted in H. destruct (sort_columns t columns reverse) as [cs rev] eqn:Hsc. cbn [fst snd].
+  intros Hnr.
+  destruct (sort_keys t cs rev) as [kc|e] eqn:Hk; cbn [bind] in H; [|discriminate].
+  destruct (negb (forallb sortable_dtype kc)); [discriminate|].
+  destruct (sort_keys_inv t cs rev kc Hwf Hnr Hk) as [Hin [Hnd Hkc]].
+  set (keys := map (row_at kc) (seq 0 (nrows t))) in H.
+  assert (Hkl : length keys = nrows t).
+  { unfold keys. rewrite map_length, seq_length. reflexivity. }
+  assert (Hlen : length (argsort keys) = nrows t).
+  { unfold argsort. rewrite map_length, isort_by_length, combine_length, seq_length, Nat.min_id.
+    exact Hkl. }
+  pose proof Hwf as [Hl [Hf Hndh]].
+  rewrite (set_cols_empty (hdr t) (map (take (argsort keys)) (cols t)) (nrows t)) in H.
+  - inversion H as [Ht']. cbn [hdr nrows cols].
+    assert (Hn : match hdr t with [] => 0%nat | _ :: _ => nrows t end = nrows t).
+    { destruct (hdr t); [symmetry; apply Hne; reflexivity|reflexivity]. }
+    split; [reflexivity|]. split; [|split].
+    + unfold wf. cbn [hdr nrows cols]. rewrite map_length. split; [exact Hl|split; [|exact Hndh]].
+      rewrite Hn. rewrite Forall_forall. intros v Hv. apply in_map_iff in Hv.
+      destruct Hv as [c [Hc _]]. subst v. rewrite take_length. exact Hlen.
+    + exact Hn.
+    + rewrite rows_mkT, Hn.
+      replace (seq 0 (nrows t)) with (seq 0 (length (argsort keys))) by (rewrite Hlen; reflexivity).
+      rewrite take_rows. unfold argsort. rewrite map_map, Hkl. unfold keys. rewrite combine_map_l.
+      unfold spec_sorted.
+      rewrite (isort_by_map_commute (fun p => row_at (cols t) (snd p)) _
+                 (spec_row_leb (hdr t) cs (rev_flags cs rev))).
+      * rewrite map_map. reflexivity.
+      * intros x y Hx Hy. apply in_map_iff in Hx. destruct Hx as [i [Hi Hi']].
+        apply in_map_iff in Hy. destruct Hy as [j [Hj Hj']]. subst x y. cbn [fst snd].
+        apply in_seq in Hi'. apply in_seq in Hj'.
+        rewrite Hkc. apply key_leb_spec; try assumption; lia.
+  - rewrite map_length. exact Hl.
+  - rewrite Forall_forall. intros v Hv. apply in_map_iff in Hv.
+    destruct Hv as [c [Hc _]]. subst v. rewrite take_length. exact Hlen.
+  - exact Hndh.
 Qed.
 
 (* ------------------------------------------------------------------ B4: the specification is THE stable sort *)
@@ -557,69 +591,26 @@ Proof.
   - intros r. apply spec_sorted_stable.
 Qed.
 
-(* the same four facts for the order the code really sorts by *)
-Lemma code_row_leb_total h columns rev : leb_total (code_row_leb h columns rev).
-Proof. intros r1 r2. unfold code_row_leb. apply key_leb_total. Qed.
 
-Lemma code_row_leb_trans h columns rev : leb_trans (code_row_leb h columns rev).
-Proof. intros r1 r2 r3. unfold code_row_leb. apply key_leb_trans. Qed.
+(* ------------------------------------------------------------------ examples *)
 
-(* ------------------------------------------------------------------ B5: the refutation *)
+(* "a" < "ab" < "b": descending on column a is b, ab, a (a proper prefix is reversed too) *)
+Example sorted_reverse_prefix_exact : exists t',
+  sorted (mkT [[97]; [98]] [[CS [97]; CS [97; 98]; CS [98]]; [CI 1; CI 2; CI 3]] 3)
+         None (Some [[97]]) = Ok t' /\
+  rows t' = [[CS [98]; CI 3]; [CS [97; 98]; CI 2]; [CS [97]; CI 1]].
+Proof. eexists. split; vm_compute; reflexivity. Qed.
 
-Definition refute_table : table :=
-  mkT [[97]; [98]] [[CS [97]; CS [97; 98]; CS [98]]; [CI 1; CI 2; CI 3]] 3.
+(* column f (bool) reversed: True rows first; then column n ascending *)
+Example sorted_reverse_bool : exists t',
+  sorted (mkT [[102]; [110]]
+              [[CB false; CB true; CB false; CB true]; [CI 2; CI 2; CI 1; CI 1]] 4)
+         (Some [[102]; [110]]) (Some [[102]]) = Ok t' /\
+  rows t' = [[CB true; CI 1]; [CB true; CI 2]; [CB false; CI 1]; [CB false; CI 2]].
+Proof. eexists. split; vm_compute; reflexivity. Qed.
 
-Lemma refute_table_wf : wf refute_table.
-Proof.
-  unfold wf, refute_table. cbn [hdr cols nrows]. split; [reflexivity|split].
-  - repeat constructor.
-  - constructor; [cbn [In]; intros [H|[]]; discriminate|].
-    constructor; [cbn [In]; intros []|constructor].
-Qed.
 
-(* "a" < "ab" < "b"; descending on column a is b, ab, a; the code answers b, a, ab:
-   translating the characters does not reverse a proper prefix *)
-Theorem sorted_reverse_prefix_refuted : exists t columns reverse t',
-  wf t /\ sorted t columns reverse = Ok t' /\
-  rows t' <> spec_sorted (hdr t) (rows t) (fst (sort_columns t columns reverse))
-               (rev_flags (fst (sort_columns t columns reverse)) (snd (sort_columns t columns reverse))).
-Proof.
-  exists refute_table, None, (Some [[97]]). eexists.
-  split; [exact refute_table_wf|]. split; [vm_compute; reflexivity|].
-  vm_compute. discriminate.
-Qed.
-
-(* the hypotheses of [sorted_is_stable_sort] are satisfiable with a reversed string column *)
-Definition good_table : table :=
-  mkT [[97]; [98]] [[CS [98]; CS [97]; CS [99]]; [CI 1; CI 2; CI 3]] 3.
-
-Example sorted_hyps_inhabited : exists t columns reverse t',
-  wf t /\ (hdr t = [] -> nrows t = 0%nat) /\ sorted t columns reverse = Ok t' /\
-  NoDup (snd (sort_columns t columns reverse)) /\
-  (forall c, In c (snd (sort_columns t columns reverse)) -> In c (fst (sort_columns t columns reverse)) ->
-             col_reversible (col_of t c)) /\
-  rows t' = [[CS [99]; CI 3]; [CS [98]; CI 1]; [CS [97]; CI 2]].
-Proof.
-  exists good_table, None, (Some [[97]]). eexists.
-  split; [|split; [|split; [|split; [|split]]]].
-  - unfold wf, good_table. cbn [hdr cols nrows]. split; [reflexivity|split].
-    + repeat constructor.
-    + constructor; [cbn [In]; intros [H|[]]; discriminate|].
-      constructor; [cbn [In]; intros []|constructor].
-  - intros H. discriminate.
-  - vm_compute. reflexivity.
-  - vm_compute. constructor; [intros []|constructor].
-  - intros c Hc _. vm_compute in Hc. destruct Hc as [Hc|[]]. subst c.
-    vm_compute col_of. right. split.
-    + repeat constructor; eexists; (split; [reflexivity|]); repeat constructor; lia.
-    + intros s1 s2 H1 H2. cbn [In] in H1, H2.
-      destruct H1 as [H1|[H1|[H1|[]]]]; inversion H1; subst s1;
-        destruct H2 as [H2|[H2|[H2|[]]]]; inversion H2; subst s2;
-          first [left; reflexivity | right; split; reflexivity].
-  - vm_compute. reflexivity.
-Qed.
-
-(* why B1/B3 carry [hdr t = [] -> nrows t = 0]: wf allows rows without columns *)
+(* why [sorted_is_stable_sort] carries [hdr t = [] -> nrows t = 0]: wf allows rows without columns *)
 Example sorted_no_columns_loses_rows :
   wf (mkT [] [] 5) /\ sorted (mkT [] [] 5) None None = Ok empty_table /\
   nrows empty_table <> nrows (mkT [] [] 5) /\ rows empty_table <> rows (mkT [] [] 5).
@@ -630,3 +621,4 @@ Proof.
   - cbn [nrows empty_table]. discriminate.
   - vm_compute. discriminate.
 Qed.
+
